@@ -175,6 +175,24 @@ where
     cov!(!on(m, B) || !le, "not below");
 }
 
+/// C03 (part n): the crate's own merge-derived order `NaiveLatticeOrd::naive_cmp` (built from the
+/// change flags of two merges) equals `partial_cmp` — the statement the crate's `check_lattice_ord` samples.
+pub fn c03n<T>(_m: u8)
+where
+    T: Lat + Merge<T> + PartialOrd + lattices::NaiveLatticeOrd,
+{
+    c03n_on(T::sym(), T::sym())
+}
+pub fn c03n_on<T>(x: T, y: T)
+where
+    T: HasModel + Merge<T> + PartialOrd + lattices::NaiveLatticeOrd,
+{
+    let n = x.naive_cmp(&y);
+    assert!(n == x.partial_cmp(&y), "C03 naive_cmp (merge-derived order) != partial_cmp");
+    assert!(n == x.model().cmp(&y.model()), "C03 naive_cmp (merge-derived order) != model order");
+    cov!(n.is_some(), "comparable");
+}
+
 /// C03 (part t): transitivity on a symbolic triple with the crate's own operators.
 /// witnesses: A = chain x<=y<=z, B = strict chain.
 pub fn c03t<T>(m: u8)
